@@ -49,7 +49,15 @@ def make_cases_stated():
                     yield {'moduli': [s for i, s in enumerate(SIZES) if mask >> i & 1], 'style': style, 'algs': algs, 'banner': banner, 'family': 'stated'}
 
 
+NEAR = [1023, 1025, 2040, 2047, 2049, 2056, 3064, 3071, 3073, 3080, 4095]
+
+
 def make_cases_extension():
+    # sizes next to the rating thresholds and not multiples of 8 (real moduli files hold 2047/3071-bit entries)
+    for a in NEAR:
+        for banner in ('openssh', 'dropbear'):
+            yield {'moduli': [a], 'style': 'roundup', 'algs': 'sha256', 'banner': banner, 'family': 'extension'}
+            yield {'moduli': [a, 8192], 'style': 'roundup', 'algs': 'both', 'banner': banner, 'family': 'extension'}
     grid = list(range(512, 8193, 256))
     for k in (1, 2):
         for combo in itertools.combinations(grid, k):
@@ -218,8 +226,9 @@ def run(ctx):
     ctx.map(faults)
     ext = list(make_cases_extension())
     if ctx.quick:
-        ctx.rng.shuffle(ext)
-        ext = ext[:200]
+        head, tail = ext[:4 * len(NEAR)], ext[4 * len(NEAR):]
+        ctx.rng.shuffle(tail)
+        ext = head + tail[:200]
     ctx.map(ext)
     ctx.note(stated_domain=len(stated), stated_run=len(part), fault_cases=len(faults), extension_cases=len(ext),
              explanation='stated domain = every subset of the nine sizes x 3 styles x 3 alg sets x 2 banners; exhaustive flag refers to that domain')
